@@ -1,0 +1,6 @@
+//go:build !verif
+
+package transformer
+
+// Verification hook (see /verif). With the build tag `verif` off it is a no-op.
+func verifTraceListener(*OpenFgaDslListener, string, ...string) {}
